@@ -493,7 +493,15 @@ class Ctx:
         if r.code != 0:
             self.world.probe("format_dimension_not_convertible")
             return
-        for other, label in ((agp_in, "AGP"), (tpf_in, "TPF")):
+        # TPF cannot carry a scaffold that begins with a gap ("for assemblies all
+        # three can carry"): records beginning with N are compared as AGP only
+        lines = wl["input"].splitlines()
+        leading_gap = any(ln.startswith(">") and i + 1 < len(lines) and lines[i + 1][:1] in "Nn"
+                          for i, ln in enumerate(lines))
+        variants = [(agp_in, "AGP")] + ([] if leading_gap else [(tpf_in, "TPF")])
+        if leading_gap:
+            self.world.probe("format_dimension_tpf_skipped_leading_gap")
+        for other, label in variants:
             got = self.run_p2a("w1", fmt="tpf", asm=other)
             if not self.compare("input_format", base, got, f"input assembly supplied as {label} instead of FASTA", only_suffix=".tpf"):
                 return
